@@ -353,7 +353,8 @@ impl<'a> Ex<'a> {
                             break;
                         }
                         Out::Val(None) => {
-                            tl!(self.tr, "  efi_mmap end after {}", k);
+                            // the length report after the end is part of the protocol, too
+                            tl!(self.tr, "  efi_mmap end after {} len {:?} hint {:?}", k, catch(|| it.len()), catch(|| it.size_hint()));
                             break;
                         }
                         Out::Val(Some(d)) => {
